@@ -413,6 +413,60 @@ def run(repo: str, tier: str, seed: int, replay_dir=None, write_ev=True, jobs=No
         cov["evaluations"] += floor_runs
         log("floor: %d histories, %d failing" % (floor_runs, len(floor_fail)))
 
+        # ---- copies of option objects: set on the original, copy (shallow / deep), set on the copy (or on
+        # the original), convert with the other one: the two must be independent
+        copy_hist = []
+        for shallow in (True, False):
+            for n1 in OPTION_NAMES:
+                for n2 in OPTION_NAMES:
+                    for who_set, who_conv in (("c1", "o1"), ("o1", "c1")):
+                        copy_hist.append([{"op": "new", "id": "o1"}, {"op": "set", "obj": "o1", "name": n1, "value": OPTION_SPACE[n1][1]},
+                                          {"op": "copy", "id": "c1", "src": "o1", "shallow": shallow},
+                                          {"op": "set", "obj": who_set, "name": n2, "value": OPTION_SPACE[n2][1 if n2 != n1 else 0]},
+                                          {"op": "conv", "prog": "short:sentinel", "obj": who_conv}, {"op": "conv", "prog": "short:sentinel", "obj": who_set}])
+        # ---- a real file name passed as filename=, then a same-length variant of its contents under the
+        # same name (nothing about the file on disk is an input of a conversion)
+        pdir = os.path.join(os.path.dirname(os.path.dirname(os.path.abspath(__file__))), "pool")
+        import random as _rnd
+
+        for key in sorted(pool):
+            if not key.startswith("file:"):
+                continue
+            path = os.path.join(pdir, key[5:] + ".py")
+            if not os.path.exists(path):
+                continue
+            v = pool[key]
+            for attempt in range(6):
+                v = progs.variant_of(pool[key], _rnd.Random(derive_seed(seed, "fnvar", key, attempt)))
+                if v != pool[key] and len(v.encode()) == len(pool[key].encode()):
+                    break
+            if v != pool[key] and len(v.encode()) == len(pool[key].encode()):
+                copy_hist.append([{"op": "conv", "prog": key, "obj": None, "filename": path}, {"op": "conv", "src": v, "obj": None, "filename": path}])
+                copy_hist.append([{"op": "conv", "src": v, "obj": None, "filename": path}, {"op": "conv", "prog": key, "obj": None, "filename": path}])
+        # ---- stack head-room ladder (a fault kind: the caller leaves N frames less stack).  From every
+        # rung the conversion either returns the reference text or raises RecursionError - never another
+        # text - and the conversions after a natural stack exhaustion are unaffected by it.
+        ladder_progs = [k for k in ("big:many_statements_260", "big:deep_nesting", "big:many_functions", "file:t_class", "file:t_function_decl",
+                                    "short:nested_loops", "short:many_returns", "file:t_comprehension") if k in pool]
+        if not ladder_progs:
+            ladder_progs = sorted(pool)[:4]
+        rungs = list(range(300, 985, 15 if P.get("triples") else 45))
+        for key in ladder_progs:
+            for unp in OPTION_SPACE["unparser"]:
+                for d in rungs:
+                    copy_hist.append([{"op": "new", "id": "o1"}, {"op": "set", "obj": "o1", "name": "unparser", "value": unp},
+                                      {"op": "conv", "prog": key, "obj": "o1", "depth": d},
+                                      {"op": "conv", "prog": key, "obj": "o1"}, {"op": "conv", "prog": "short:sentinel", "obj": None}])
+        cjobs = [(groups12[i % len(groups12)], {"cmd": "c10_histories", "ops_list": copy_hist[i::len(groups12)]}) for i in range(len(groups12))]
+        copy_fail = []
+        for (g, req), r in zip(cjobs, fleet.run(cjobs)):
+            for f in r["failures"]:
+                copy_fail.append((g, f))
+            _merge(cov, r, states, transitions, desc_digests)
+        cov["phases"]["copies_real_filenames_stack_ladder"] = {"histories": len(copy_hist), "failures": len(copy_fail)}
+        cov["evaluations"] += len(copy_hist)
+        log("copies / real file names / stack head-room ladder: %d histories, %d failing" % (len(copy_hist), len(copy_fail)))
+
         # ---- phase option-object floor: ONE object, all sequences <= 5 of {6 sets, 2 conversions} ------
         # (a snapshot of the options taken at first use, refreshed only under some condition, an
         # option changed and changed back, the same value set twice ...)
@@ -666,7 +720,7 @@ def run(repo: str, tier: str, seed: int, replay_dir=None, write_ev=True, jobs=No
         log("determinism self-check: %d pairs, %d mismatches" % (pairs, mism))
 
         # ---- shrink + replay-verify failures ---------------------------------------------
-        all_fail = floor_fail + oo_fail + ce_fail + pair_fail + triple_fail + hunt_fail + seeded_fail
+        all_fail = floor_fail + copy_fail + oo_fail + ce_fail + pair_fail + triple_fail + hunt_fail + seeded_fail
         unreproducible = []
         by_class = {}
         for g, f in all_fail:
